@@ -15,7 +15,7 @@ def handle (c : Json) : JE Json := do
   let info := analyze streamOps rs xs
   let noConsumer := info.tasks.filterMap (fun t => if t.2.1 + t.2.2.2 == 0 then some t.1 else none)
   let surplus := info.tasks.filterMap (fun t => if t.2.2.1 > t.2.2.2 then some t.1 else none)
-  let ledgerLeak := (info.tasks.map (fun t => (distribute false t.2.1 t.2.2.1 t.2.2.2).leaked)).sum
+  let ledgerLeak := (info.tasks.map (fun t => (distribute false false t.2.1 t.2.2.1 t.2.2.2 0).leaked)).sum
   pure (Json.mkObj [("ok", Json.bool info.ok), ("dropped", J.mkStrs info.droppedAtEnd),
     ("noConsumer", J.mkStrs noConsumer), ("surplus", J.mkStrs surplus),
     ("leakWithoutClose", (ledgerLeak : Nat)), ("tasks", (info.tasks.length : Nat))])
